@@ -521,6 +521,17 @@ func main() {
 		}
 		e.Op(fmt.Sprintf("pn %d", p), n, t)
 	}
+	lettersOnly := func(n string) bool {
+		if n == "" {
+			return false
+		}
+		for _, ch := range n {
+			if !(ch >= 'a' && ch <= 'z' || ch >= 'A' && ch <= 'Z') {
+				return false
+			}
+		}
+		return true
+	}
 	// crafted packets
 	var crafted []pkt
 	for _, tos := range []uint8{0xb8, 0xb9, 0x00, 0x10, 0x40} {
@@ -539,6 +550,48 @@ func main() {
 			ps = append(ps, randPkt(r))
 		}
 		return ps
+	}
+	// protocol predicates over the COMPLETE protocol table: by number (the printed canonical name
+	// must parse back to the same predicate - names the grammar cannot spell, i.e. with digits or
+	// empty, are outside, DESIGN 7a) and by name in several spellings (whatever the real parser
+	// accepts must survive printing).
+	for p := 0; p < 256; p++ {
+		name := layers.IPProtocolMetadata[p].Name
+		if !lettersOnly(name) {
+			continue
+		}
+		pn := uint8(p)
+		byNum := pktcls.NewCondIPv4(&pktcls.IPv4MatchProtocol{Protocol: pn})
+		printed := byNum.String()
+		want, _ := gwcond.EncCond(byNum)
+		c2, err := pktcls.BuildClassTree(printed)
+		got := "err"
+		if err == nil {
+			got, _ = gwcond.EncCond(c2)
+		}
+		e.Case("proto-by-number/"+printed, "proto-by-number", false)
+		if got != want {
+			e.Violate("C43/print-reparse-protocol", fmt.Sprintf("the protocol predicate for %d prints as %q, which parses to %q instead of itself", p, printed, got),
+				map[string]any{"protocol": p, "text": printed})
+		}
+		ev := v4only(func(q *pkt) bool { return q.proto == pn })
+		ps := append(pkts(2), mkV4(r, 0x0a010203, 0xc0a80101, 0, pn, false, 80, 53, false))
+		for _, sp := range []string{name, strings.ToLower(name), strings.ToUpper(name)} {
+			// valid=false: only the canonical spelling is demanded above; other spellings are
+			// checked (evaluation, print/re-parse) when the real parser accepts them
+			g := gnode{text: "protocol=" + sp, valid: false, eval: ev}
+			runText(e, g, ps, "proto-name")
+			if c, err := pktcls.BuildClassTree(g.text); err == nil {
+				_, bits := evalBits(c, ps)
+				for i := range ps {
+					if ps[i].clean && bits[i] != ev(&ps[i]) {
+						e.Violate("C43/eval", fmt.Sprintf("expression evaluates to %v, its boolean value is %v", bits[i], !bits[i]),
+							map[string]any{"text": g.text, "packet": ps[i].enc})
+						break
+					}
+				}
+			}
+		}
 	}
 	// exhaustive part
 	var alpha []gnode
